@@ -239,7 +239,7 @@ def main(ctx):
     corpus = sorted(glob.glob(os.path.join(repo, "example", "*.nmfu")) + glob.glob(os.path.join(repo, "example", "test", "*.ok.nmfu")))
     ctx.pmap(corpus_worker, [(p, a, known) for p in corpus for a in (CORPUS_ARGV[:2] if quick else CORPUS_ARGV)])
     n = 120 if quick else 2000
-    stop_at = time.time() + (75 if quick else 1500)
+    stop_at = time.time() + (75 if quick else 900)
     ctx.pmap(worker, [(ctx.seed * 100003 + i, n, known, stop_at) for i in range(common.NPROC)])
     pairs = set(tuple(p) for p in ctx.total.extra.pop("pairs", []))
     total_pairs = len(FLAGS) * (len(FLAGS) - 1) // 2 * 4
